@@ -151,7 +151,7 @@ def scan_sites():
     resolve = _resolve_factory(files, trees, classes)
     out = []
 
-    def kind_of(expr, fn_params, fn_node):
+    def kind_of(expr, fn_params, fn_node, first_arg=None):
         if expr is None:
             return "KOmitted"
         t = ast.unparse(expr)
@@ -161,11 +161,14 @@ def scan_sites():
             return "KModelRandom"
         if t == "random" and "random" in fn_params:
             return "KPassThrough"
-        if t == "rng":
-            # the local of the legacy `.agents` properties: must be exactly agents[0].random, or None when there is no agent
+        if isinstance(expr, ast.Name) and fn_node is not None and expr.id not in fn_params and first_arg is not None:
+            # a LOCAL variable (whatever it is called): the legacy `.agents` fall-back - it must be bound exactly twice, to
+            # <the list handed to AgentSet>[0].random and to None (names of locals do not matter)
             binds = sorted(ast.unparse(a) for a in ast.walk(fn_node) if isinstance(a, ast.Assign)
-                           and len(a.targets) == 1 and ast.unparse(a.targets[0]) == "rng") if fn_node is not None else []
-            return "KFirstAgentOrNone" if binds == ["rng = None", "rng = agents[0].random"] else "KOther"
+                           and len(a.targets) == 1 and ast.unparse(a.targets[0]) == expr.id)
+            if binds == sorted([f"{expr.id} = None", f"{expr.id} = {first_arg}[0].random"]):
+                return "KFirstAgentOrNone"
+            return "KOther"
         return "KOther"
 
     for f in files:
@@ -210,7 +213,8 @@ def scan_sites():
                 if expr is None and any(k.arg is None for k in call.keywords):
                     kind = "KOther"     # **kwargs: cannot be decided statically
                 else:
-                    kind = kind_of(expr, params, fn)
+                    first = ast.unparse(call.args[0]) if call.args and isinstance(call.args[0], ast.Name) else None
+                    kind = kind_of(expr, params, fn, first)
             site = SITES.get((f, cname, fname))
             if site is None:
                 if target == "GroupBy":
@@ -360,6 +364,11 @@ def _translate(name, glue, params_expected):
     params = [a.arg for a in fn.args.args + fn.args.kwonlyargs]
     if params != params_expected:
         raise T.Broken(f"unexpected parameters of Model.{name}: {params}")
+    # statements modulo the names of local variables (pyexpr.normalized_statements does the same renaming), docstrings,
+    # comments, formatting and the text of the exception message (a `raise` is translated to None whatever it says)
+    import copy
+
+    fn = pyexpr._Renamer({n: f"v{i}" for i, n in enumerate(pyexpr.local_names(fn))}).visit(copy.deepcopy(fn))
     tr = SeedTr(glue)
     try:
         body = tr.stmts(list(fn.body), f"Some {RESULT}")
@@ -374,14 +383,49 @@ def c_model_init():
             f"  : option {RTYPE} :=\n  {INIT}{body}).")
 
 
+GLUE_INIT_SEQUENCE = [     # in source order, with the branch each occurrence is in
+    "super().__init__(*args, **kwargs)",
+    "self.running = True",
+    "self.steps: int = 0",
+    "self._rng = self.rng.bit_generator.state",      # seed is None branch
+    "self._rng = self.rng.bit_generator.state",      # rng is None branch
+    "self._user_step = self.step",
+    "self.step = self._wrapped_step",
+    "self._agents = {}",
+    "self._agents_by_type: dict[type[Agent], AgentSet] = {}",
+    "self._all_agents = AgentSet([], random=self.random)",
+]
+
+
 def c_init_skeleton():
-    _, tr = _translate("__init__", GLUE_INIT, ["self", "seed", "rng"])
-    # every glue statement once, in this order (the _rng line occurs in both branches)
-    seen = [g for i, g in enumerate(tr.glue_seen) if g not in tr.glue_seen[:i]]
-    want = [g for g in GLUE_INIT]
-    order = [g for g in GLUE_INIT if g in seen]
-    if sorted(seen) != sorted(want) or seen != order:
-        raise T.Broken(f"glue statements of Model.__init__ changed: {[g for g in want if g not in seen] or seen}")
+    """the residual glue statements of Model.__init__ (everything SeedTr does not translate), in source order and with
+    their multiplicity, modulo local-variable names, docstrings, comments, formatting and message texts"""
+    import copy
+
+    fn = _model_fn("__init__")
+    fn = pyexpr._Renamer({n: f"v{i}" for i, n in enumerate(pyexpr.local_names(fn))}).visit(copy.deepcopy(fn))
+    _translate("__init__", GLUE_INIT, ["self", "seed", "rng"])     # fails closed on anything neither translated nor glue
+    seen = []
+
+    def walk(stmts):
+        for st in stmts:
+            if isinstance(st, ast.If):
+                walk(st.body)
+                walk(st.orelse)
+            elif isinstance(st, ast.Try):
+                walk(st.body)
+                for h in st.handlers:
+                    walk(h.body)
+            else:
+                txt = ast.unparse(st)
+                if txt in GLUE_INIT:
+                    seen.append(txt)
+
+    walk(fn.body)
+    if seen != GLUE_INIT_SEQUENCE:
+        diff = [f"{a!r} where {b!r} was expected" for a, b in zip(seen, GLUE_INIT_SEQUENCE) if a != b] \
+            or [f"{len(seen)} glue statements, expected {len(GLUE_INIT_SEQUENCE)}"]
+        raise T.Broken("glue statements of Model.__init__ changed: " + diff[0][:200])
     return "Definition gen_model_init_skeleton_ok : bool := true."
 
 
@@ -406,8 +450,7 @@ def c_agent_props():
         fn = T._find_func(cls, name)
         if not any(ast.unparse(d) == "property" for d in fn.decorator_list):
             raise T.Broken(f"Agent.{name} is not a property")
-        body = [st for st in fn.body if not (isinstance(st, ast.Expr) and isinstance(st.value, ast.Constant))]
-        got[name] = len(body) == 1 and ast.unparse(body[0]) == want
+        got[name] = pyexpr.normalized_statements(fn) == [want]
     for st in ast.walk(T._find_func(cls, "__init__")):
         if isinstance(st, (ast.Assign, ast.AnnAssign)) and ast.unparse(st.targets[0] if isinstance(st, ast.Assign) else st.target) in ("self.random", "self.rng"):
             raise T.Broken("Agent.__init__ caches a generator")
